@@ -28,6 +28,9 @@ def soils(seed):
         ("E2", [(0.90, "SL2", 3, 3, 0, 22, 9, 38, 73, 21, 6), (0.30, "SL4", 10, 3, 0, 22, 12, 43, 61, 27, 12), (0.10, "SS", 20, 3, 0, 15, 5, 38, 88, 7, 5)], "explicit"),
         ("P1", [(1.14, "ULS", 3, 2, 0, 31, 16, 45, 26, 63, 11), (0.40, "LT2", 20, 2, 0, 29, 19, 48, 30, 35, 35)], "ptf"),
         ("P2", [(2.10, "SL3", 4, 3, 0, 24, 10, 47, 65, 25, 10), (0.30, "SL4", 20, 3, 0, 22, 12, 46, 61, 27, 12)], "ptf"),
+        # PTF soils WITHOUT explicit field capacity / wilting point (only the pore volume, which the PTF routes take from the file)
+        ("P3", [(1.60, "ULS", 3, 2, 0, 0, 0, 46, 26, 63, 11), (0.50, "LT2", 11, 2, 0, 0, 0, 48, 30, 35, 35), (0.20, "SL4", 20, 3, 0, 0, 0, 44, 61, 27, 12)], "ptf"),
+        ("P4", [(rnd.choice([0.90, 2.40]), "SL3", 4, 3, rnd.choice([0, 2]), 0, 0, 47, 65, 25, 10), (0.30, "SL4", 20, 3, 0, 0, 0, 46, 61, 27, 12)], "ptf"),
     ]
 
 
@@ -236,6 +239,10 @@ def batch_lines(thorough, seed, end_year_quick=1982, end_year_thorough=1990):
         for k in (1, 2, 3, 4):
             add("c15g", rnd.choice(["P1", "P2"]), 10001, rnd.choice(["G1", "G2", "G3", "G4"]), k, "ptf%d" % k)
             add("c15p", rnd.choice(["P1", "P2"]), rnd.choice([10001, 10002, 10003]), None, k, "ptf%d" % k)
+        for k in (1, 2, 3, 4):
+            for soil in ("P3", "P4"):
+                add("c15g", soil, 10001, rnd.choice(["G1", "G2", "G3", "G4"]), k, "ptf%d-%s-no-explicit" % (k, soil))
+            add("c15p", rnd.choice(["P3", "P4"]), rnd.choice([10001, 10003]), None, k, "ptf%d-no-explicit-sinus" % k)
         add("c15g", "T1", 10001, "G1", 0, "T1-G1")
         add("c15g", "E1", 10001, "G1", 0, "E1-G1")
     else:
@@ -248,6 +255,10 @@ def batch_lines(thorough, seed, end_year_quick=1982, end_year_thorough=1990):
         add("c15g", rnd.choice(["P1", "P2"]), 10001, rnd.choice(["G2", "G3"]), k, "ptf%d" % k)
         k2 = rnd.choice([1, 2, 3, 4])
         add("c15p", rnd.choice(["P1", "P2"]), rnd.choice([10001, 10003]), None, k2, "ptf%d-sinus" % k2)
+    if not thorough:
+        # every PTF on a soil without explicit FC/WP under a table that moves and returns to its first level (short runs)
+        for k in (1, 2, 3, 4):
+            add("c15g", ["P3", "P4"][(k + seed) % 2], 10001, ["G1", "G2", "G3", "G4"][(k + seed) % 4], k, "ptf%d-no-explicit" % k, 1981)
     # constant groundwater: stones x explicit values, mixed profiles, both soil file readers (short runs: nothing moves)
     fsids = ["E3S", "E4S", "M1X", "M2X", "M3X", "S1T", "S2E", "T6S"]
     if thorough:
